@@ -381,6 +381,8 @@ class Contract:
         self.local_types: Dict[str, Ty] = {}   # declared types of locals initialised with empty literals
         self.axiom_sets: set = set()     # optional spec axiom families needed by this function's proof (e.g. {"addr"})
         self.loop_havoc: Dict[int, List[str]] = {}   # loop ordinal -> heap components (L.* / D.*) the loop may write (overrides the syntactic guess)
+        self.z3_first_s: Optional[float] = None   # string-heavy contracts: seconds the z3 API gets before cvc5 takes the obligation
+        self.param_terms: Dict[str, Callable[..., Any]] = {}   # parameter -> value built from the ghost parameters (a definitional precondition `p == term`)
         self.samples: Optional[Callable[[], Any]] = None   # native argument dicts (cross-validation, frame replay)
 
 
